@@ -87,6 +87,14 @@ type ContractTable struct {
 	ChanValues map[string][]ChanValue // element type string -> facts about values travelling through channels of that type
 	InitFacts map[string][]Clause // "pkgname.global" -> facts established by the package initialiser (assumed)
 	TrustFrame map[string]bool // package paths whose uncontracted functions get an assumed empty frame
+	Refines    []Refine
+}
+
+// Refine: a declared refinement of an interface method contract by a concrete method's contract.
+type Refine struct {
+	Iface, Impl, File, Pkg string
+	Line                   int
+	Assuming               []Clause
 }
 
 func newContractTable() *ContractTable {
@@ -98,7 +106,7 @@ var pkgClauseRe = regexp.MustCompile(`^package\s+(\w+)`)
 
 var clauseKeywords = map[string]bool{"requires": true, "ensures": true, "modifies": true, "pure": true, "assumed": true,
 	"functype": true, "loop": true, "results": true, "params": true, "maypanic": true, "wrapping": true, "assert": true, "use": true, "allocates": true,
-	"nonblocking": true, "ghostset": true, "callsonce": true, "before": true, "dead": true, "func": true, "iface": true, "lemma": true, "import": true, "trustframe": true, "chanvalue": true, "initfact": true, "axiom": true, "ghostfield": true, "uninterp": true, "const": true}
+	"nonblocking": true, "ghostset": true, "callsonce": true, "before": true, "dead": true, "func": true, "iface": true, "lemma": true, "import": true, "trustframe": true, "refines": true, "assuming": true, "chanvalue": true, "initfact": true, "axiom": true, "ghostfield": true, "uninterp": true, "const": true}
 
 // loadContractFile parses one file. defaultPkg is used for keys without package qualifier
 // (the Go package name of the file for in-repo contract files).
@@ -180,6 +188,33 @@ func (ct *ContractTable) loadContractFile(path string) error {
 			if len(fields) == 3 {
 				ct.Imports[fields[1]] = strings.Trim(fields[2], "\"")
 			}
+		case "refines":
+			// refines <interface method contract> by <method contract>: the method's contract implies the
+			// interface's for receivers of that type (checked as obligations under the key "refines:I:M")
+			if len(fields) != 4 || fields[2] != "by" {
+				return fmt.Errorf("%s:%d: bad refines clause", path, rl.line)
+			}
+			qual := func(k string) string {
+				if strings.HasPrefix(k, "(") && defaultPkg != "" {
+					return defaultPkg + "." + k
+				}
+				return k
+			}
+			ct.Refines = append(ct.Refines, Refine{Iface: fields[1], Impl: qual(fields[3]), File: path, Line: rl.line, Pkg: defaultPkg})
+			cur = nil
+			lastSF = nil
+		case "assuming":
+			// assuming <expr>: input validity the refinement takes for granted beyond the interface's
+			// preconditions (reported as an assumption)
+			if len(ct.Refines) == 0 || cur != nil {
+				return fmt.Errorf("%s:%d: 'assuming' must follow a refines clause", path, rl.line)
+			}
+			c, err := mkClause(rest, rl.line)
+			if err != nil {
+				return err
+			}
+			c.File = path
+			ct.Refines[len(ct.Refines)-1].Assuming = append(ct.Refines[len(ct.Refines)-1].Assuming, c)
 		case "trustframe":
 			// trustframe <package path> ...: calls into these (external) packages that have no contract
 			// are ASSUMED to write no memory the verified code can see and to return unconstrained values
